@@ -12,6 +12,9 @@ req = json.load(sys.stdin)
 failures, evaluations, distinct, samples = [], 0, set(), []
 
 
+PAIRS = []      # (label, configuration A, configuration B differing in one element, affected node)
+
+
 def mutations(nodes):
     out = []
     for i, n in enumerate(nodes):
@@ -43,6 +46,14 @@ def mutations(nodes):
                 d = m[i]["derive"]["parameter_sweep"]["variables"]
                 if isinstance(dom, list):
                     d[vname] = dom + [9.0]
+                    # long explicit sequences: every single element is identity-bearing (first, interior, last)
+                    long_seq = [float(q) for q in range(1, 10)]
+                    for pos in range(len(long_seq)):
+                        m2, m3 = copy.deepcopy(nodes), copy.deepcopy(nodes)
+                        m2[i]["derive"]["parameter_sweep"]["variables"][vname] = list(long_seq)
+                        changed = list(long_seq); changed[pos] += 0.5
+                        m3[i]["derive"]["parameter_sweep"]["variables"][vname] = changed
+                        PAIRS.append((f"node{i}:sweep:domain:{vname}:element{pos}-of-9", m2, m3, i))
                 elif "from_context" in dom:
                     d[vname] = {"from_context": dom["from_context"] + "_other"}
                 else:
@@ -96,7 +107,19 @@ for name, nodes, ctx in idlib.base_configs():
             failures.append({"class": "node-uuids-not-distinct", "config": name, "mutation": mname})
         if len(samples) < 3 and "sweep" in mname:
             samples.append({"config": name, "mutation": mname, "semantic_id_changed": got["semantic_id"] != ref["semantic_id"], "config_id_changed": got["config_id"] != ref["config_id"]})
-print(json.dumps({"bound": "5 base configurations x single-point mutations (processor, parameter value, context key, node count/order, sweep: wrapped processor, expression constant / non-commutative operator, variable domain, mode, broadcast) at every applicable position",
+    # pairs of long explicit sequences differing in exactly one element
+    for plabel, cfg_a, cfg_b, pos in PAIRS:
+        evaluations += 1
+        distinct.add((name, plabel))
+        try:
+            a_ids, b_ids = idlib.ids_inspection(idlib.to_yaml(cfg_a, "block")), idlib.ids_inspection(idlib.to_yaml(cfg_b, "block"))
+        except Exception:
+            continue
+        for key in ("semantic_id", "config_id"):
+            if a_ids[key] == b_ids[key]:
+                failures.append({"class": f"{key}-unchanged-by:sweep-sequence-element", "config": name, "mutation": plabel})
+    PAIRS.clear()
+print(json.dumps({"bound": "5 base configurations x single-point mutations (incl. every single element of a 9-value explicit sweep sequence) (processor, parameter value, context key, node count/order, sweep: wrapped processor, expression constant / non-commutative operator, variable domain, mode, broadcast) at every applicable position",
                   "evaluations": evaluations, "distinct_nontrivial": len(distinct),
                   "rule": "distinct = (configuration, mutation); each mutation changes the documented meaning, so semantic_id and config_id must change",
                   "failures": failures[:40], "samples": samples}, default=str))
